@@ -172,6 +172,12 @@ def mutations(rng):
 
 
 def main_():
+    if sys.argv[1] == 'replay':   # REPLAY-ARGV
+        spec = json.loads(sys.argv[2])
+        r = run(spec['args'])
+        v = [{'id': r.get('id', r['kind']), 'detail': r.get('detail'), 'input': spec}] if r['kind'] in ('uncaught', 'bad') else []
+        print(json.dumps({'cases': 1, 'violations': v}, default=str))
+        return
     seed, count = int(sys.argv[2]), int(sys.argv[3])
     rng = random.Random(seed)
     out = {'cases': 0, 'nontrivial': 0, 'violations': [], 'samples': [], 'outcomes': {}}
